@@ -84,7 +84,7 @@ impl<T: Sc> Report<T> {
     }
 }
 
-pub trait StatsObj<T: Sc> {
+pub trait StatsObj<T: Sc>: Send {
     fn cov(&self) -> DMatrix<T>;
     fn corr(&self) -> DMatrix<T>;
     fn chi2(&self) -> T;
@@ -150,7 +150,7 @@ pub enum ProbeEv {
     Jacobian,
 }
 
-pub trait Prob<T: Sc> {
+pub trait Prob<T: Sc>: Send {
     fn set_params(&mut self, a: &[T]);
     fn params(&self) -> Vec<T>;
     fn residuals(&self) -> Option<Vec<T>>;
